@@ -78,7 +78,8 @@ def _list(w, proto="gopher", sel="/t"):
         return r, None
 
 
-BASES = ["t", "forms.ask", ".cache-2019", "deep/nest~/d", ""]  # "" = the document root itself
+LONGBASE = "/".join(["L" * 200 + str(i) for i in range(6)])  # selectors of > 1024 and (with a 200-character child) > 1400 characters
+BASES = ["t", "forms.ask", ".cache-2019", "deep/nest~/d", "", LONGBASE]  # "" = the document root itself
 
 
 def _check_dir(names, handler, extra_files=None, hidden=(), check_retrieval=True, all_perms=True, max_perms=None, base="t", must_list=(), must_not_list=()):
@@ -133,11 +134,11 @@ def _check_dir(names, handler, extra_files=None, hidden=(), check_retrieval=True
                 for n in must_not_list:
                     if n in got:
                         bad.append(("hidden-entry-listed", "entry %r is hidden by metadata but listed: %r" % (n, got)))
+                if len(set(got)) != len(got):
+                    bad.append(("duplicate", "directory %r: an entry is listed twice: %r" % (allnames, got)))
                 if not extra_files:
                     if sorted(got) != expected:
                         bad.append(("visible-set", "directory %r: listed %r, visible entries are %r" % (allnames, sorted(got), expected)))
-                    if len(set(got)) != len(got):
-                        bad.append(("duplicate", "directory %r: an entry is listed twice: %r" % (allnames, got)))
                     if handler == "dir" and got != sorted(got):
                         bad.append(("unsorted", "DirHandler listing not in name order: %r" % got))
             elif r.out != first_out:
@@ -177,6 +178,8 @@ CURATED = [
      "a link file that hides an entry and also contains a byte that is not UTF-8", {"must_not_list": ["f.txt"], "must_list": ["g.txt", "h.txt", "sub"]}),
     ({"f.txt": b"f\n", "b": {"x": b"x"}, "c": {"y": b"y"}, ".cap": {"b": b"Type=X\n", "f.txt": b"Type=-\n"}, "k.txt": b"k\n"},
      ".cap files hiding a directory and a file", {"must_not_list": ["b", "f.txt"], "must_list": ["c", "k.txt"]}),
+    ({"f.txt": b"f\n", "b": {"x": b"x"}, "c": {"y": b"y"}, "e": {"z": b"z"}, ".names": b"Path=./b/\nName=Renamed Dir\nNumb=1\n\nType=X\nPath=./c/\n\nPath=~/e/\nName=Tilde Dir\n", "k.txt": b"k\n"},
+     "override and hide blocks whose relative path ends in a slash", {"must_not_list": ["c"], "must_list": ["b", "e", "f.txt", "k.txt"]}),
     ({"1.txt": b"1", "2.txt": b"2", "3.txt": b"3", ".names": b"Path=./1.txt\nNumb=3\n\nPath=./2.txt\nNumb=3\n\nPath=./3.txt\nNumb=-1\n", ".cap": {"2.txt": b"Name=Capped\n"}, "z": {}},
      "equal Numb values, a .cap override and a negative number"),
 ]
